@@ -120,6 +120,52 @@ def is_fresh_source(c, model, f):
     return False
 
 
+def cancel_callers(run, model, rule='WHO.cancel'):
+    """absent a call of cancel_event/cancel_events by the client or of stop(), nothing in the package cancels a timed source: the only caller of the two cancel
+    methods inside the package is ActiveObject.stop().  (cancel_events matches by signal *name*: a housekeeping call made by the library itself for one source
+    silences every other source of the same signal.)  Shared by C10 (exactly n postings absent cancellation) and C11 (the other sources keep running)."""
+    run.rule(rule, 'inside the package cancel_event/cancel_events are called only by ActiveObject.stop()')
+    n = 0
+    for f in model.all_funcs():
+        for c in shallow_calls(f.node):
+            if isinstance(c.func, ast.Attribute) and c.func.attr in ('cancel_event', 'cancel_events'):
+                n += 1
+                ok = f.name == 'stop' and f.owner_class is not None and f.owner_class.name == 'ActiveObject'
+                run.inst(rule, f, '%s calls %s' % (f.qualname, norm(c.func)), ok,
+                         '' if ok else ('%s cancels timed sources on its own (%s): cancel_events stops every source that posts the same signal name, cancel_event the first source with an equal id - a '
+                                        'source that was neither cancelled by the client nor stopped ends early and posts fewer events than requested' % (f.qualname, norm(c))), node=c, obligation=True)
+    run.floor('package-internal callers of cancel_event/cancel_events', n, 1)
+
+
+def flag_before_tracking(run, model, rule='ORDER.flag-before-track'):
+    """the run flag of a new timed source is raised before the source becomes visible in the tracking deque, and never again afterwards: once it is tracked, cancel_event /
+    cancel_events / stop() may clear the flag at any moment, and a later set() would switch a cancelled source back on for good (its record is already gone)"""
+    run.rule(rule, 'the run flag of a timed source is set before its record is appended to the tracking deque and not after')
+    ao = model.cls('ActiveObject')
+    pe = next((m_ for n_, m_ in ao.methods.items() if n_.endswith('__post_event')), None)
+    if pe is None:
+        raise AnalysisError('ActiveObject.__post_event not found')
+    g = cfg_of(pe)
+    track = pe.params[0] + '.posted_events_queue'
+    appends = [n for n, c, m in queues.ops_on(g, track, {'append', 'appendleft'}, fnode=pe.node)]
+    # the flag object: a local bound to a threading.Event that is handed to the tracking record / the thread spec
+    flags = {t.id for a in walk_shallow(pe.node) if isinstance(a, ast.Assign) and isinstance(a.value, ast.Call) and norm(a.value.func).split('.')[-1] in ('ThreadEvent', 'Event')
+             for t in a.targets if isinstance(t, ast.Name)}
+    sets = [n for n in g.nodes if n.kind not in ('entry', 'exit', 'xexit', 'def') and
+            any(isinstance(c.func, ast.Attribute) and c.func.attr == 'set' and isinstance(c.func.value, ast.Name) and c.func.value.id in flags for c in n.calls())]
+    run.floor('tracking append sites in __post_event', len(appends), 1)
+    run.floor('run-flag set sites in __post_event', len(sets), 1)
+    for s_ in sets:
+        late = [a for a in appends if a is s_ or g.exists_path(a, s_)]
+        run.inst(rule, pe, 'run flag raised before the source is tracked: %s' % s_.text()[:50], not late,
+                 '' if not late else ('the run flag of the new source is set after its record was appended to the tracking deque: a cancel_events/cancel_event/stop() that runs in between '
+                                      'removes the record and returns, then the flag is raised and the thread started - the cancelled source posts for ever and nothing can reach it any more'),
+                 node=s_.ast, obligation=True)
+    for a in appends:
+        ok = any(g.dominates(s_, a) for s_ in sets)
+        run.inst(rule, pe, 'a tracked source has its run flag up', ok, '' if ok else 'a source is tracked on a path on which its run flag was never raised', node=a.ast, obligation=True)
+
+
 def check(run, model, tier):
     run.explanation = ('Operator census (identity vs equality) and loop-shape/path-count analysis of ActiveObject.cancel_event/cancel_events, '
                        'plus a lockset look at the timer thread\'s test-then-post. Matching by equality and inspecting each tracked record '
@@ -240,6 +286,8 @@ def check(run, model, tier):
         run.inst('SCAN.clear-matched', f, 'a matched source is always stopped', ok, 'a matched record can be dropped without clearing its run flag', obligation=True)
     confine_tracking(run, model)
     unique_source_id(run, model)
+    cancel_callers(run, model)
+    flag_before_tracking(run, model)
     # ---- timer: test-then-post atomicity
     t, sf, sc = timer_runner(model)
     g = cfg_of(t)
